@@ -4,7 +4,7 @@ import json, os, re
 root = os.path.dirname(os.path.dirname(os.path.abspath(__file__)))
 rows = []
 lines = {}
-for name in ["RESULTS-rounds12.tsv", "RESULTS-rounds345.tsv", "RESULTS.tsv"]:
+for name in ["RESULTS-rounds12.tsv", "RESULTS-rounds345.tsv", "RESULTS-round6.tsv", "RESULTS.tsv"]:
     fp = os.path.join(root, "seeded", name)
     if os.path.exists(fp):
         for l in open(fp):
